@@ -179,7 +179,19 @@ func (a *Abs) Identity() (name, email string, ok bool) {
 
 // cleanArg mirrors what a user means by a path argument given at the repository
 // root: lexical cleaning only.
-func cleanArg(arg string) string { return filepath.ToSlash(filepath.Clean(arg)) }
+func cleanArg(arg string) string {
+	// "@ROOT@" stands for the absolute path of the working tree (expanded by the sandbox, whose
+	// working tree is always a directory named "root")
+	if arg == "@ROOT@" {
+		return "."
+	}
+	arg = strings.TrimPrefix(arg, "@ROOT@/")
+	c := filepath.ToSlash(filepath.Clean(arg))
+	if c == "../root" {
+		return "."
+	}
+	return strings.TrimPrefix(c, "../root/")
+}
 
 func isUnder(p, dir string) bool {
 	return dir == "." || strings.HasPrefix(p, dir+"/")
@@ -303,7 +315,7 @@ func modelAdd(a *Abs, args []string) []Out {
 	ign := a.IgnoreRules()
 	I := a.IndexMap()
 	// validation: every argument must exist on disk or be a tracked file
-	alt := false // a deleted tracked directory was named: refusal or unstaging both allowed
+	alt := false // a deleted tracked directory was named
 	for _, arg := range args {
 		c := cleanArg(arg)
 		if strings.HasPrefix(c, "../") || c == ".." || filepath.IsAbs(arg) {
@@ -374,11 +386,8 @@ func modelAdd(a *Abs, args []string) []Out {
 	}
 	o.WFree = free // (re-used: index paths whose staging is undecided by the ignore rules)
 	o.ExitFree = argsOverlap(args)
-	outs := []Out{o}
-	if alt {
-		outs = append(outs, a.refused())
-	}
-	return outs
+	_ = alt // a deleted tracked directory is a tracked directory (C06): its entries are unstaged, refusal is not an option
+	return []Out{o}
 }
 
 func modelRm(a *Abs, args []string) []Out {
